@@ -94,8 +94,8 @@ fn interesting_heights(rng: &mut Rng, n_rand: usize) -> Vec<u32> {
 
 pub fn gen(rng: &mut Rng, tier: &str) -> Vec<Line> {
   let thorough = tier == "thorough";
-  let n_heights: usize = if thorough { 1_500_000 } else { 30_000 };
-  let n_rand: usize = if thorough { 1_000_000 } else { 30_000 };
+  let n_heights: usize = if thorough { 1_500_000 } else { 20_000 };
+  let n_rand: usize = if thorough { 1_000_000 } else { 20_000 };
   let t = starts();
   let last = subsidy_heights();
   let sup = supply();
